@@ -1744,8 +1744,11 @@ impl super::Processor for Pyc {
         let (mut io, input) = InputOutputHelper::open(input_path, self.config.check, true)?;
 
         let mut parser = PycParser::from_file(input_path, input)?;
-        if parser.version < (3, 0) {
-            return Ok(super::ProcessResult::Noop);  // We don't want to touch python2 files
+        if parser.version < (3, 4) {
+            // We don't want to touch python2 files. Python 3.0–3.3 use marshal
+            // format 2, which has no reference flag, TYPE_REF or small tuples,
+            // so we cannot rewrite those files either.
+            return Ok(super::ProcessResult::Noop);
         }
 
         let code = parser.read_object()?;
